@@ -43,6 +43,7 @@ ModelRes(S0, e) ==
     [] e.a = "Idle" -> [s |-> AutoPausedSet(S0, Eligible(S0)), res |-> "ok"]
     [] e.a = "Restart" -> RestartFn(S0, Flag(e, "snap"))
     [] e.a = "Wait" -> [s |-> S0, res |-> "ok"]
+    [] OTHER -> [s |-> S0, res |-> e.obs.res]       \* "Stop" / "Cleanup": the end of the run (recorded only when it fails)
 
 \* --- silent auto pauses
 MayFire(e) == {p \in Parts : cfg.auto /\ e.st.mf[p + 1]}
@@ -53,11 +54,20 @@ Match(S, e) == /\ S.exists = e.st.exists /\ S.paused = B(e.st.paused) /\ S.ro = 
                /\ S.leading = B(e.st.leading) /\ S.resumeAll = e.st.ra /\ S.log = B(e.st.log)
                /\ S.subs = RecSubs(e)
 
-\* pairs <<S0, S1>>: S0 a variant of the state before, S1 a variant of the model's state after the call
-Fits(e) == {x \in UNION { {<<S0, S1>> : S1 \in Variants(ModelRes(S0, e).s, MayFire(e))} : S0 \in Variants(Cur, MayFire(e)) } :
-              ModelRes(x[1], e).res = e.obs.res /\ Match(x[2], e)}
+\* a silent auto pause in the middle of a publish over the API (after the resume decision, before the message
+\* reaches the leader loop): the publish parked at the gate "resumed", the timers, the rest of the publish
+Mid(S0, e) ==
+  IF e.a = "Publish" /\ e.args.path # "subject" /\ MayFire(e) # {}
+  THEN LET a == PubRun(S0, "A", e.args.p, e.args.m, {}, "resumed") IN
+       IF a.res = "parked" THEN {PubRun(S, "C", e.args.p, e.args.m, {}, "") : S \in Variants(a.s, MayFire(e))} ELSE {}
+  ELSE {}
 
-Ghost(e) == IF Fits(e) # {} THEN (CHOOSE x \in Fits(e) : TRUE)[2] ELSE ModelRes(Cur, e).s
+\* outcomes of the call: on a variant of the state before (timers fired before the call), possibly with timers
+\* firing in the middle; Fits = variants of an outcome's state (timers fired after the call) that match the record
+Outs(e) == UNION { {ModelRes(S0, e)} \cup Mid(S0, e) : S0 \in Variants(Cur, MayFire(e)) }
+Fits(e) == {S1 \in UNION { Variants(o.s, MayFire(e)) : o \in {x \in Outs(e) : x.res = e.obs.res} } : Match(S1, e)}
+
+Ghost(e) == IF Fits(e) # {} THEN CHOOSE S1 \in Fits(e) : TRUE ELSE ModelRes(Cur, e).s
 
 IsPub(e) == e.a \in {"Publish", "PubStart", "PubEnd"} /\ "m" \in DOMAIN e.args
 AckedNext(e) == IF IsPub(e) /\ e.obs.res = "ok" THEN acked \cup {<<e.args.p, e.args.m>>}
@@ -134,9 +144,9 @@ TraceNext ==
              /\ Chk(OpenOK, "I", e, "InitWith")
         ELSE /\ cfg' = cfg
              /\ lastRA' = Ghost(e).lastRA /\ tail' = Ghost(e).tail /\ tainted' = Ghost(e).tainted /\ acked' = AckedNext(e) /\ refused' = RefusedNext(e) /\ pend' = PendNext(e)
-             /\ Chk(Fits(e) # {}, "I", e, "step")
+             /\ Chk(e.obs.res \in {"panic", "hang"} \/ Fits(e) # {}, "I", e, "step")
              /\ Chk(e.st.logerr = "", "P", e, "X02_LogReadable")
-             /\ Chk((Calm(e) /\ ~tainted) => PropOf(e), "P", e, "step")
+             /\ Chk((Calm(e) /\ ~tainted /\ e.obs.res \notin {"panic", "hang"}) => PropOf(e), "P", e, "step")
              /\ Chk((e.a = "Restart" /\ Calm(e)) => P_RestartResumeAll, "P", e, "P_RestartResumeAll")
              /\ Chk(LoopsAgree(e), "I", e, "LoopsAgree")
      /\ Chk(X02_AckedStored', "P", e, "X02_AckedStored")
